@@ -8,16 +8,16 @@ use num_traits::CheckedMul;
 fn u_form(r: &mut Rec, k: u64) {
     match k % 7 {
         0 => r.uu("mul", "ref_ref", 0, 1, 2, |a, b| a * b),
-        1 => r.uu("mul", "val_ref", 0, 1, 2, |a, b| a.clone() * b),
-        2 => r.uu("mul", "ref_val", 0, 1, 2, |a, b| a * b.clone()),
-        3 => r.uu("mul", "val_val", 0, 1, 2, |a, b| a.clone() * b.clone()),
+        1 => r.uu("mul", "val_ref", 0, 1, 2, |a, b| a.roomy() * b),
+        2 => r.uu("mul", "ref_val", 0, 1, 2, |a, b| a * b.roomy()),
+        3 => r.uu("mul", "val_val", 0, 1, 2, |a, b| a.roomy() * b.roomy()),
         4 => {
             r.clone_u(0, 2);
             r.u_assign("mul", "assign_ref", 2, 1, |d, s| *d *= s)
         }
         5 => {
             r.clone_u(1, 2);
-            r.u_assign("mul", "assign_val_swapped", 2, 0, |d, s| *d *= s.clone())
+            r.u_assign("mul", "assign_val_swapped", 2, 0, |d, s| *d *= s.roomy())
         }
         _ => r.uu_opt("checked_mul", "method", 0, 1, 2, |a, b| a.checked_mul(b)),
     };
@@ -26,8 +26,8 @@ fn u_form(r: &mut Rec, k: u64) {
 fn i_form(r: &mut Rec, k: u64) {
     match k % 5 {
         0 => r.ii("mul", "ref_ref", 0, 1, 2, |a, b| a * b),
-        1 => r.ii("mul", "val_ref", 0, 1, 2, |a, b| a.clone() * b),
-        2 => r.ii("mul", "val_val", 0, 1, 2, |a, b| a.clone() * b.clone()),
+        1 => r.ii("mul", "val_ref", 0, 1, 2, |a, b| a.roomy() * b),
+        2 => r.ii("mul", "val_val", 0, 1, 2, |a, b| a.roomy() * b.roomy()),
         3 => {
             r.clone_i(0, 2);
             r.i_assign("mul", "assign_ref", 2, 1, |d, s| *d *= s)
@@ -51,7 +51,7 @@ fn scalar_forms(r: &mut Rec, rng: &mut Rng) {
         Ret::none()
     });
     r.op("mul", "val_u64", &[u(0)], &[u(2)], &ex(&s64.sc()), |g| {
-        g.u[2] = g.u[0].clone() * s64;
+        g.u[2] = g.u[0].roomy() * s64;
         Ret::none()
     });
     r.op("mul", "u64_ref", &[u(0)], &[u(2)], &ex(&s64.sc()), |g| {
@@ -59,7 +59,7 @@ fn scalar_forms(r: &mut Rec, rng: &mut Rng) {
         Ret::none()
     });
     r.op("mul", "val_u128", &[u(0)], &[u(2)], &ex(&s128.sc()), |g| {
-        g.u[2] = g.u[0].clone() * s128;
+        g.u[2] = g.u[0].roomy() * s128;
         Ret::none()
     });
     r.clone_u(0, 2);
@@ -81,7 +81,7 @@ fn scalar_forms(r: &mut Rec, rng: &mut Rng) {
         Ret::none()
     });
     r.op("mul", "i128_val", &[i(0)], &[i(2)], &exi(&i128s.sc()), |g| {
-        g.i[2] = i128s * g.i[0].clone();
+        g.i[2] = i128s * g.i[0].roomy();
         Ret::none()
     });
 }
@@ -117,7 +117,7 @@ fn scalar_matrix(r: &mut Rec) {
                 Ret::none()
             });
             r.op("mul", "val_u128", &[u(0)], &[u(2)], &ex(&s.sc()), |g| {
-                g.u[2] = g.u[0].clone() * s;
+                g.u[2] = g.u[0].roomy() * s;
                 Ret::none()
             });
             r.clone_u(0, 2);
